@@ -1,155 +1,114 @@
-"""SPIKE: C01 (group reductions equal the per-group definition) — run-time contract tier on the real glue.
+"""C01 — group reductions equal the per-group definition (public API).
 
-Contracts (sidecar, on the REAL functions):
-  core.GroupBy._apply_gb_reduction   ensures  result == Spec (labels = labels with a selected row; per label the fold of the selected rows)
-  numba._group_by_reduce             requires the kernel precondition under which it is proved (lengths, key < len(target), positions >= -n)
-  numba._apply_group_method_single_chunk  ensures (target, count) == Fold on the logical arrays (intermediate contract of the chain)
-Oracle: executable specification written from the property statement (pure Python over lists).
+P/L (unbounded): ScalarFuncs.* = step functions, _group_by_reduce = per-group fold (both indexer modes), L-char (fold = definition), L-filter.
+B (bounded): run-time contract on the public reductions GroupBy.size/count/sum/mean/min/max/first/last:
+   ensures  labels == labels with at least one selected row (sorted, or first-appearance order with sort=False)
+            and per label value == reduction of the non-null values in the selected rows of that label; all-null group -> neutral
+ + kernel-precondition monitors on _group_by_reduce / _apply_group_method_single_chunk (the `requires` the proofs rest on).
+Oracle: executable specification written from the property statement (props/common.py), not pandas.
 """
-import itertools, math, time, random, io, contextlib
+import itertools, io, contextlib
 import numpy as np, pandas as pd
+from . import common as C
 
+PROP = "C01"; LEVEL = "other"; P_TIER = True
 OPS = ["size", "count", "sum", "mean", "min", "max", "first", "last"]
-PROP = "C01"
+SCOPE = {"quick": "keys over {null,a,b,c} of kinds float/str/int/categorical/two-key, n<=3 exhaustive (n=4 for float keys x float values) x value classes {float,int,datetime,timedelta,bool} x every value-null pattern x masks {none, every boolean, slices incl. negative bounds, positions incl. repeats} x sort on/off x 8 reductions; seeded random cases up to 24 rows",
+         "thorough": "as quick with n<=4 for every kind (n<=5 float/float), random cases up to 64 rows"}
+RULE = "a case = (keys, key kind, value class, value-null pattern, mask, sort); distinct = distinct canonical JSON; non-trivial = at least two labels, or a null key, or a mask, or a null value"
+ASSUMPTIONS = ["pandas Series/Index/MultiIndex construction and sorting behave as documented", "numpy boolean/slice/fancy indexing",
+               "A-real: float sums compared with relative tolerance 1e-9; A-int64 (sums of 64-bit values do not overflow)",
+               "BOUNDED: the pandas glue between the public methods and the proved kernels is checked only within the stated scope"]
+REQUIRED_CONTRACTS = {"numba._group_by_reduce": 1, "numba._apply_group_method_single_chunk": 1}
+EXPLANATION = ("Modular: the per-group fold is proved for the kernels (_group_by_reduce with ScalarFuncs.*, unbounded, from the real source); the chain GroupBy.<op> -> _apply_gb_reduction -> "
+               "_apply_gb_func_across_chunked_group_keys -> group_<op> -> _group_func_wrap is pandas glue and is decided by a run-time postcondition taken from the property statement over a bounded-exhaustive scope (bounded, not proved).")
+BUDGET = {"quick": 50, "thorough": 500}
+KEY_KINDS = ("float", "str", "int", "cat", "two")
 
 
-# ----------------------------------------------------------------------------- executable specification
-def spec_reduce(op, keys, vals, sel):
-    out = {}
-    labels = sorted({k for k, s in zip(keys, sel) if k is not None and s}, key=lambda x: (str(type(x)), x))
-    for lab in labels:
-        rows = [v for k, v, s in zip(keys, vals, sel) if k == lab and s]
-        nn = [v for v in rows if v is not None]
-        out[lab] = {"size": lambda: len(rows), "count": lambda: len(nn), "sum": lambda: sum(nn) if nn else 0,
-                    "mean": lambda: (sum(nn) / len(nn)) if nn else None, "min": lambda: min(nn) if nn else None,
-                    "max": lambda: max(nn) if nn else None, "first": lambda: nn[0] if nn else None, "last": lambda: nn[-1] if nn else None}[op]()
-    return out
+def make_keys(kkind, keys):
+    """-> (object to pass as group key, list of logical labels (None = null key))"""
+    if kkind == "float": return np.array([np.nan if x is None else float(x) for x in keys]), [None if x is None else float(x) for x in keys]
+    if kkind == "str": return np.array([None if x is None else "abc"[x] for x in keys], dtype=object), [None if x is None else "abc"[x] for x in keys]
+    if kkind == "int": return np.array([0 if x is None else x + 5 for x in keys], dtype=np.int64), [0 if x is None else x + 5 for x in keys]
+    if kkind == "cat":
+        labs = [None if x is None else "abc"[x] for x in keys]
+        return pd.Categorical(labs, categories=["c", "a", "b", "unused"]), labs
+    if kkind == "two":      # two keys: first = x // 2 as float (null when x is None), second = parity as str; a null in EITHER makes the row null
+        k1 = np.array([np.nan if x is None else float(x // 2) for x in keys]); k2 = np.array(["ev" if (x or 0) % 2 == 0 else "od" for x in keys], dtype=object)
+        return [k1, k2], [None if x is None else (float(x // 2), "ev" if x % 2 == 0 else "od") for x in keys]
+    raise ValueError(kkind)
 
 
-def is_null(x):
-    return x is None or x is pd.NaT or (isinstance(x, float) and math.isnan(x)) or (isinstance(x, (np.datetime64, np.timedelta64)) and np.isnat(x))
+def label_order(kkind, labs, sort):
+    present = list(dict.fromkeys(x for x in labs if x is not None))
+    if kkind == "cat": return [c for c in ["c", "a", "b", "unused"] if c in present]
+    return sorted(present) if sort else present
 
 
-def same(got, exp):
-    if is_null(exp): return is_null(got) or (isinstance(got, (int, np.integer)) and int(got) == np.iinfo(np.int64).min)
-    if is_null(got): return False
-    if isinstance(exp, (pd.Timestamp, np.datetime64)): return pd.Timestamp(got) == pd.Timestamp(exp)
-    return abs(float(got) - float(exp)) <= 1e-9 * max(1.0, abs(float(exp)))
-
-
-def selection(mask, n):
-    if mask is None: return [True] * n
-    if mask[0] == "bool": return list(mask[1])
-    if mask[0] == "slice":
-        idx = range(n)[slice(*mask[1])]; return [i in idx for i in range(n)]
-    raise ValueError(mask)
-
-
-# ----------------------------------------------------------------------------- case space
-def materialise(case):
-    keys, nullpat, mask, kkind, vkind, sort = case["keys"], case["nullpat"], case["mask"], case["kkind"], case["vkind"], case["sort"]
-    n = len(keys)
-    if kkind == "float": k = np.array([np.nan if x is None else float(x) for x in keys]); labs = [None if x is None else float(x) for x in keys]
-    elif kkind == "str": k = np.array([None if x is None else "abc"[x] for x in keys], dtype=object); labs = [None if x is None else "abc"[x] for x in keys]
-    elif kkind == "int": k = np.array(keys, dtype=np.int64); labs = list(keys)
-    else: raise ValueError(kkind)
-    if vkind == "float":
-        vals = [None if nullpat[i] else float(10 * (i + 1) + (3 - i)) for i in range(n)]; v = np.array([np.nan if x is None else x for x in vals])
-    elif vkind == "int":
-        vals = [7 * (i + 1) - 10 for i in range(n)]; v = np.array(vals, dtype=np.int64)
-    elif vkind == "datetime":
-        base = pd.Timestamp("2020-01-01"); vals = [None if nullpat[i] else base + pd.Timedelta(days=3 * i + 1, nanoseconds=i) for i in range(n)]
-        v = np.array([np.datetime64("NaT") if x is None else np.datetime64(x, "ns") for x in vals], dtype="M8[ns]")
-    else: raise ValueError(vkind)
-    m = None
-    if mask is not None: m = np.array(mask[1]) if mask[0] == "bool" else slice(*mask[1])
-    return k, labs, v, vals, m, selection(mask, n)
-
-
-def cases(N, tier):
-    kv = [("float", "float"), ("int", "float"), ("str", "float"), ("float", "int")] + ([("float", "datetime")] if tier == "thorough" else [])
-    for n in range(1, N + 1):
-        for kkind, vkind in kv:
-            alphabet = [0, 1, 2] if kkind == "int" else [None, 0, 1, 2]
+def cases(tier, seed):
+    big = tier == "thorough"
+    def gen(kkind, vkind, N):
+        for n in range(0 if kkind == "float" and vkind == "float" else 1, N + 1):
+            alphabet = [None, 0, 1, 2]
             for keys in itertools.product(alphabet, repeat=n):
-                pats = itertools.product([False, True], repeat=n) if vkind != "int" else [tuple([False] * n)]
-                for nullpat in pats:
-                    masks = [None] + [("bool", list(m)) for m in itertools.product([False, True], repeat=n)] + \
-                            [("slice", s) for s in ((1, None, None), (None, -1, None), (-2, None, None))]
-                    for mask in masks:
+                for pat in C.null_patterns(vkind, n):
+                    kinds = ("none", "bool", "slice", "pos") if n <= 3 else ("none", "bool")
+                    for mask in C.masks_for(n, kinds, pos_len=2):
+                        if mask is not None and mask[0] == "slice" and n >= 3 and (mask[1][0] not in (None, 1, -2, -n - 1) or mask[1][1] not in (None, -1, 2, n + 1)): continue
                         for sort in (True, False):
-                            yield {"keys": list(keys), "nullpat": list(nullpat), "mask": mask, "kkind": kkind, "vkind": vkind, "sort": sort}
+                            yield {"keys": list(keys), "kkind": kkind, "vkind": vkind, "nullpat": list(pat), "mask": mask, "sort": sort}
+    streams = [gen("float", "float", 5 if big else 4)]
+    for kkind, vkind in [("str", "float"), ("int", "float"), ("float", "int"), ("cat", "float"), ("two", "float"), ("float", "datetime"), ("str", "bool"), ("float", "timedelta"), ("two", "int")]:
+        streams.append(gen(kkind, vkind, 4 if big else 3))
+    return C.roundrobin(*streams)
+
+
+def random_case(rnd, tier):
+    n = rnd.randint(5, 64 if tier == "thorough" else 24)
+    return {"keys": [rnd.choice([None, 0, 1, 2]) for _ in range(n)], "kkind": rnd.choice(KEY_KINDS), "vkind": rnd.choice(["float", "float", "int", "datetime"]),
+            "nullpat": [rnd.random() < 0.3 for _ in range(n)], "sort": rnd.random() < 0.5,
+            "mask": rnd.choice([None, ("bool", [rnd.random() < 0.6 for _ in range(n)]), ("slice", [rnd.randrange(-n, n), None, None]), ("pos", [rnd.randrange(0, n) for _ in range(rnd.randint(0, n))])])}
 
 
 def nontrivial(case):
     ks = [k for k in case["keys"] if k is not None]
-    return len(set(ks)) >= 2 or None in case["keys"] or case["mask"] is not None or any(case["nullpat"])
+    return len(set(ks)) >= 2 or (None in case["keys"] and case["kkind"] != "int") or case["mask"] is not None or any(case["nullpat"])
 
 
-# ----------------------------------------------------------------------------- one case against the real code
-def check_case(sess, case, ops=OPS):
+def check_case(sess, case, ops=None):
     from groupby_lib.groupby import GroupBy
-    k, labs, v, vals, m, sel = materialise(case)
-    calls = 0
-    for op in ops:
-        if case["vkind"] == "datetime" and op == "sum": continue          # sums of timestamps are not meaningful
+    kkind, vkind = case["kkind"], case["vkind"]; n = len(case["keys"])
+    k, labs = make_keys(kkind, case["keys"]); v, vals = C.make_values(vkind, n, case["nullpat"])
+    rows = C.selection_rows(case["mask"], n); m = C.np_mask(case["mask"]); calls = 0
+    for op in ([case["op"]] if "op" in case else (ops or OPS)):
+        if vkind == "datetime" and op == "sum": continue
         calls += 1
         c = dict(case, op=op); sess.current_case = c
-        exp = spec_reduce(op, labs, vals, sel)
+        exp = {lab: C.reduce_rows(op, [vals[r] for r in rows if labs[r] == lab]) for lab in dict.fromkeys(labs[r] for r in rows if labs[r] is not None)}
         try:
             with contextlib.redirect_stdout(io.StringIO()):
                 gb = GroupBy(k, sort=case["sort"])
                 got = gb.size(mask=m) if op == "size" else getattr(gb, op)(v, mask=m)
         except Exception as ex:
             sess.record("raises", f"GroupBy.{op}", f"aligned inputs must not be rejected / must not fail: {type(ex).__name__}", str(ex)[:200]); continue
-        got_labels = list(got.index)
-        exp_labels = list(exp) if case["sort"] else [l for l in dict.fromkeys(x for x in labs if x is not None) if l in exp]
+        got_labels = [tuple(x) if isinstance(x, tuple) else x for x in got.index]
+        exp_labels = [l for l in label_order(kkind, labs, case["sort"]) if l in exp]
         if got_labels != exp_labels:
-            sess.record("post", f"GroupBy.{op}", "labels == labels with a selected row, in the requested order", {"got": got_labels, "expected": exp_labels}); continue
-        bad = [(l, got[l], exp[l]) for l in exp if not same(got[l], exp[l])]
-        if bad: sess.record("post", f"GroupBy.{op}", "value == fold of the selected rows of the label", {"mismatch": [(str(a), str(b), str(c_)) for a, b, c_ in bad]})
+            sess.record("post", f"GroupBy.{op}", "labels == labels with a selected row, in the requested order", {"got": str(got_labels), "expected": str(exp_labels)}); continue
+        bad = []
+        for l in exp:
+            g, e = got[l], exp[l]
+            if vkind == "bool" and e is None: e = False
+            if op == "mean" and vkind in ("datetime", "timedelta") and e is not None and not C.is_null(g):
+                gv, evv = (pd.Timestamp(g).value if vkind == "datetime" else pd.Timedelta(g).value), e.value
+                if abs(gv - evv) <= max(2, abs(evv) * 2.0 ** -50): continue
+            if not C.same(g, e): bad.append((l, g, e))
+        if bad: sess.record("post", f"GroupBy.{op}", "value == reduction of the non-null values in the selected rows of the label", {"mismatch": [(str(a), str(b), str(c_)) for a, b, c_ in bad][:4]})
     return calls
 
 
 def install(sess):
     """sidecar contracts on the real functions of the chain"""
-    def pre_gbr(group_key, values, target, reduce_func, indexer=None, check_in_bounds=True):
-        n = len(group_key)
-        if len(values) != n: return f"len(values)={len(values)} != len(group_key)={n}"
-        if n and int(np.max(group_key)) >= len(target): return "group key >= len(target)"
-        if indexer is not None and len(indexer) and int(np.min(indexer)) < -n: return "position < -n"
-    sess.wrap("groupby_lib.groupby.numba", "_group_by_reduce", requires=pre_gbr)
-    def post_single(out, reduce_func_name, group_key, values, ngroups, mask=None):
-        target, count = out
-        if len(target) != ngroups or len(count) != ngroups: return "target/count must have one slot per group"
-        if (np.asarray(count) < 0).any(): return "negative count"
-    sess.wrap("groupby_lib.groupby.numba", "_apply_group_method_single_chunk", ensures=post_single)
-
-
-def worker(rank, nprocs, tier, seed, budget):
-    from rtc.core import Session
-    sess = Session(PROP); install(sess)
-    N = 3 if tier == "quick" else 4
-    t0 = time.time(); ncase = calls = nt = 0; samples = []; complete = True
-    for i, case in enumerate(cases(N, tier)):
-        if i % nprocs != rank: continue
-        if time.time() - t0 > budget: complete = False; break
-        ncase += 1; nt += nontrivial(case); calls += check_case(sess, case)
-        if len(samples) < 2 and nontrivial(case): samples.append(case)
-    # seeded random long cases beyond the exhaustive bound
-    rnd = random.Random(seed * 1000 + rank); tlong = time.time()
-    while time.time() - tlong < min(5.0, budget * 0.1):
-        n = rnd.randint(N + 1, 24)
-        case = {"keys": [rnd.choice([None, 0, 1, 2]) for _ in range(n)], "nullpat": [rnd.random() < 0.3 for _ in range(n)],
-                "mask": rnd.choice([None, ("bool", [rnd.random() < 0.6 for _ in range(n)])]), "kkind": rnd.choice(["float", "str"]), "vkind": "float", "sort": rnd.random() < 0.5}
-        ncase += 1; nt += 1; calls += check_case(sess, case)
-    out = sess.export(); out.update(cases=ncase, calls=calls, distinct_nontrivial=nt, samples=samples, complete=complete,
-                                    scope=f"exhaustive n<={N} over keys {{null,0,1,2}} x value-null patterns x masks(none, all boolean, 3 slices) x sort x kinds; random n<=24")
-    return out
-
-
-def replay(case):
-    from rtc.core import Session
-    sess = Session(PROP); install(sess)
-    check_case(sess, {k: v for k, v in case.items() if k != "op"}, ops=[case["op"]] if "op" in case else OPS)
-    return list(sess.findings.values())
+    from .c04 import install as kernel_monitors
+    kernel_monitors(sess)
